@@ -1047,11 +1047,66 @@ class Model:
             r = self.dict_comprehension(ex, e, st)
             if r is not None:
                 return r
+        if kind == "set" and not getattr(ex, "spec_mode", False):
+            r = self.set_comprehension(ex, e, st)
+            if r is not None:
+                return r
         for g in e.generators:
             ex.ev(g.iter, st)
         o = V(fresh(kind + "comp", Ref), ObjT("Opaque"))
         st.assume(o.term != NONE)
         return o
+
+    def set_comprehension(self, ex, e, st):
+        """{elt for x1 in it1 [if c1] for x2 in it2(x1) [if c2] ...} over symbolic iterables: membership of the result is characterised
+        in both directions (every guarded element is a member; every member is such an element)."""
+        from .smt import FRESH_LOG, lift_fresh
+        mark = len(FRESH_LOG)
+        s2 = st.fork()
+        n0 = len(s2.pc)
+        js, guards = [], []
+        saved = len(ex.guards)
+        try:
+            for g in e.generators:
+                if getattr(g, "is_async", 0):
+                    return None
+                try:
+                    el = iter_elements(self, ex, ex.ev(g.iter, s2), s2)
+                except Unsupported:
+                    return None
+                if el[0] != "symbolic":
+                    return None
+                _, n, at = el
+                j = fresh("cj", z3.IntSort())
+                js.append(j)
+                rng = z3.And(0 <= j, j < n)
+                guards.append(rng)
+                ex.guards.append(rng)
+                item = at(j)
+                ex.assign(g.target, item, s2)
+                if item.ty is not TUPLE:
+                    self.type_facts(ex, item, s2)
+                for c in g.ifs:
+                    t = ex.ev_truth(c, s2)
+                    guards.append(t)
+                    ex.guards.append(t)
+            val = ex.ev(e.elt, s2)
+        finally:
+            del ex.guards[saved:]
+        if val.ty is TUPLE or val.ty is PY:
+            return None
+        ety = val.ty
+        lifted = lift_fresh(mark, js, list(s2.pc[n0:]) + [z3.And(guards), val.term])
+        facts, guard, vterm = lifted[:-2], lifted[-2], lifted[-1]
+        st.facts |= s2.facts
+        for f in facts:
+            st.assume(z3.ForAll(js, z3.Implies(guard, f)) if any(_mentions(f, j) for j in js) else f)
+        res = V(fresh("setcomp", Ref), SetT(ety))
+        x = z3.Const("sx", ety.sort())
+        st.assume(res.term != NONE)
+        st.assume(z3.ForAll(js, z3.Implies(guard, set_mem(res.term, vterm, ety))))
+        st.assume(z3.ForAll([x], z3.Implies(set_mem(res.term, x, ety), z3.Exists(js, z3.And(guard, vterm == x)))))
+        return res
 
     def dict_comprehension(self, ex, e, st):
         """{k: f(k, v) for k, v in m.items() if c(k, v)} over a symbolic map m: the result map is characterised pointwise."""
@@ -1603,6 +1658,46 @@ def _b_set(model, ex, args, kwargs, st, node):
     raise Unsupported("set(iterable)")
 
 
+def _mentions(term, c):
+    seen, todo = set(), [term]
+    cid = c.get_id()
+    while todo:
+        t = todo.pop()
+        if t.get_id() in seen:
+            continue
+        seen.add(t.get_id())
+        if t.get_id() == cid:
+            return True
+        if z3.is_quantifier(t):
+            todo.append(t.body())
+        else:
+            todo.extend(t.children())
+    return False
+
+
+def _b_sorted(model, ex, args, kwargs, st, node):
+    """sorted(set | seq) without key: a sequence with exactly the same members (the order itself is not modelled)."""
+    if len(args) != 1 or kwargs:
+        raise Unsupported("sorted(...) with key/reverse")
+    g = args[0]
+    if not isinstance(g.ty, (SetT, SeqT)):
+        raise Unsupported(f"sorted({g!r})")
+    ety = g.ty.elem
+    res = V(fresh("sorted", Ref), SeqT(ety))
+    x = z3.Const("sx", ety.sort())
+    i = fresh("si", z3.IntSort())
+    st.assume(res.term != NONE)
+    st.assume(seq_len(res.term) >= 0)
+    inres = z3.Exists([i], z3.And(0 <= i, i < seq_len(res.term), seq_at(res.term, i, ety) == x))
+    if isinstance(g.ty, SetT):
+        st.assume(z3.ForAll([x], set_mem(g.term, x, ety) == inres))
+    else:
+        j = fresh("sj", z3.IntSort())
+        st.assume(seq_len(res.term) == seq_len(g.term))
+        st.assume(z3.ForAll([x], z3.Exists([j], z3.And(0 <= j, j < seq_len(g.term), seq_at(g.term, j, ety) == x)) == inres))
+    return res
+
+
 def _b_dict(model, ex, args, kwargs, st, node):
     if not args and not kwargs:
         return pyv(("emptydict",))
@@ -1629,7 +1724,7 @@ def _b_list(model, ex, args, kwargs, st, node):
 BUILTINS = {
     "isinstance": _b_isinstance, "len": _b_len, "bool": _b_bool, "str": _b_str, "any": _b_any, "all": _b_all,
     "next": _b_next, "tuple": _b_tuple, "getattr": _b_getattr, "cast": _b_cast, "issubclass": _b_issubclass,
-    "set": _b_set, "frozenset": _b_set, "dict": _b_dict, "list": _b_list, "filter": _b_filter,
+    "set": _b_set, "frozenset": _b_set, "sorted": _b_sorted, "dict": _b_dict, "list": _b_list, "filter": _b_filter,
 }
 
 
